@@ -5,7 +5,7 @@
 EXTENDS Pipeline
 
 SpansSmall == {<<0, 10>>, <<30, 40>>}
-CONSTANTS NQ, Confs, Spans, MaxDiff, MaxSecond
+CONSTANTS NQ, Confs, FirstConfs, Spans, MaxDiff, MaxSecond
 
 VARIABLES first, second, joinOK, runs, pc
 vars == <<first, second, joinOK, runs, pc>>
@@ -13,7 +13,8 @@ vars == <<first, second, joinOK, runs, pc>>
 Tok(q, p, k) == <<<<q * 10 + p, k>>>>
 Row(q, r, o, c, sp, rest, k) == [q |-> q, r |-> r, ori |-> o, conf |-> c, rs |-> sp[1], re |-> sp[2], rest |-> rest,
                                  pairs |-> Tok(q, IF rest = "True" THEN 2 ELSE 1, k), qs |-> 0, qe |-> 0, hit |-> ""]
-RowSet(q, rest, k) == {Row(q, r, o, c, sp, rest, k) : r \in {1, 2}, o \in {"+", "-"}, c \in Confs, sp \in Spans}
+RowSet(q, rest, k) == {Row(q, r, o, c, sp, rest, k) : r \in {1, 2}, o \in {"+", "-"},
+                        c \in (IF rest = "True" THEN Confs ELSE FirstConfs), sp \in Spans}
 
 JoinRow(a, b) == [q |-> a.q, r |-> a.r, ori |-> a.ori, conf |-> a.conf + b.conf, rs |-> MinV(a.rs, b.rs),
                   re |-> MaxV(a.re, b.re), rest |-> "False", pairs |-> a.pairs \o b.pairs, qs |-> 0, qe |-> 0,
